@@ -107,12 +107,12 @@ def handle (c obs : String) : String × Bool × String :=
           ((match inputErrR q with
               | some e => rejectStr e
               | none => fmtRResult mask (execR O false f t q)), inputsOkR q,
-            !Ref.hasReductionR q && (Ref.refR O false f t q).isNone)
+            !Ref.hasReductionR q && (Ref.semR O false f t q).isNone)
         | .ds mask f t q =>
           ((match inputErrD q with
               | some e => rejectStr e
               | none => fmtDResult mask (execD O false f t q)), inputsOkD q,
-            !Ref.hasReductionD q && (Ref.refD O false f t q).isNone)
+            !Ref.hasReductionD q && (Ref.semD O false f t q).isNone)
         | .tw .. => ("bad-case", false, false)
       if !inputsOk then (model, true, "inputs not schema-conforming: property does not apply")
       else match parseObs obs with
